@@ -543,12 +543,14 @@ impl TypeChecker {
 
             S::Unreachable(_) => Ok(None),
 
-            S::Blob { .. } | S::Enum { .. } | S::ExternalDefinition { .. } => {
-                unreachable!(
-                    "Illegal inner statement at {:?}! Parser should have caught this",
-                    span
-                )
-            }
+            // The name of an inner declaration can resolve to an outer type, in
+            // which case the statement makes it all the way here.
+            S::Blob { .. } | S::Enum { .. } | S::ExternalDefinition { .. } => err_type_error!(
+                self,
+                span,
+                TypeError::Exotic,
+                "Blobs, enums and externals can only be declared at the top level"
+            ),
         }
     }
 
